@@ -361,3 +361,93 @@ fn c22_e5_const_probe() {
     kani::cover!(a.len() == 4, "witness");
     core::mem::forget(a);
 }
+
+
+/// Vec::push without the reallocating growth path: the first push allocates
+/// room for 4 elements, a fifth element fails loudly.
+fn vec_push_model<T, A>(v: &mut Vec<T>, value: T) {
+    if v.capacity() == 0 {
+        let fresh: Vec<T> = Vec::with_capacity(4);
+        let old = core::mem::replace(v, fresh);
+        core::mem::forget(old);
+    }
+    assert!(v.len() < v.capacity(), "Vec::push model: capacity 4 exceeded");
+    unsafe {
+        let len = v.len();
+        core::ptr::write(v.as_mut_ptr().add(len), value);
+        v.set_len(len + 1);
+    }
+}
+
+#[kani::proof]
+#[kani::unwind(6)]
+#[kani::stub(<[u8]>::eq_ignore_ascii_case, eq_ic_model)]
+#[kani::stub(alloc::vec::Vec::push, vec_push_model)]
+fn c22_e6_insert_create_pushstub() {
+    let e_root = any_entry([0]);
+    let t_root = etag(&e_root);
+    let root = mk(nm([0]), e_root);
+    let mut cat = Cat::new();
+    core::mem::forget(cat.roots_by_class.insert(Class::IN, root));
+    let t: u8 = kani::any();
+    let old = cat.insert(Entry::NotYetLoaded(nm([1, b'a', 0]), Class::IN, t));
+    assert!(old.is_none(), "[C22] insert returns the replaced entry");
+    let q0 = nm([0]);
+    let r = tag_of(cat.get(&q0, Class::IN));
+    assert!(r == t_root, "[C22] inserting one entry leaves the others in place");
+    let q = nm([1, b'a', 0]);
+    let r2 = tag_of(cat.get(&q, Class::IN));
+    assert!(r2 == Some(t), "[C22] get finds the inserted entry");
+    kani::cover!(t_root == Some(7), "witness");
+    core::mem::forget(old);
+    core::mem::forget(cat);
+    core::mem::forget(q);
+    core::mem::forget(q0);
+}
+
+
+#[kani::proof]
+#[kani::unwind(9)]
+fn c22_e7_heap_const_probe() {
+    let mut v: Vec<(u64, u64)> = Vec::new();
+    v.push((3, 4));
+    v.push((5, 2));
+    let x = spin_a(v[0].0 as usize);
+    let mut outer: Vec<Vec<u8>> = Vec::new();
+    outer.push(Vec::new());
+    outer[0].push(1);
+    outer[0].push(1);
+    let y = spin_b(outer[0].len());
+    let z = spin_c(outer[0].capacity());
+    assert!(x + y + z > 0, "[C22] e7");
+    kani::cover!(x == 3, "witness");
+    core::mem::forget(v);
+    core::mem::forget(outer);
+}
+
+
+#[kani::proof]
+#[kani::unwind(6)]
+#[kani::stub(<[u8]>::eq_ignore_ascii_case, eq_ic_model)]
+fn c22_e8_instrumented() {
+    let e_root = any_entry([0]);
+    let t_root = etag(&e_root);
+    let root = mk(nm([0]), e_root);
+    let mut cat = Cat::new();
+    core::mem::forget(cat.roots_by_class.insert(Class::IN, root));
+    let s1 = spin_a(cat.roots_by_class.len() + 1);
+    let s2 = match cat.roots_by_class.get(&Class::IN) {
+        Some(r) => spin_b(r.children.len() + 2),
+        None => 0,
+    };
+    let t: u8 = kani::any();
+    let old = cat.insert(Entry::NotYetLoaded(nm([1, b'a', 0]), Class::IN, t));
+    let s3 = match cat.roots_by_class.get(&Class::IN) {
+        Some(r) => spin_c(r.children.len() + 2),
+        None => 0,
+    };
+    assert!(s1 + s2 + s3 > 0, "[C22] e8");
+    kani::cover!(t_root == Some(7), "witness");
+    core::mem::forget(old);
+    core::mem::forget(cat);
+}
